@@ -1903,8 +1903,10 @@ func (x *Exec) convert(st *State, v Value, to types.Type) Value {
 		return sv
 	}
 	if _, isSl := from.Underlying().(*types.Slice); isSl && tok && tb.Info()&types.IsString != 0 {
-		x.sym.note("slice->string conversion is opaque")
-		r := x.freshValue(st, "strconv", to)
+		x.sym.note("string(bytes) is an uninterpreted function of the slice (backing array, offset, length): the bytes are assumed not to change between two conversions of the same slice")
+		x.sym.declareFun("bytes2str", []Sort{SInt, SInt, SInt}, SStr)
+		sv := v.(SliceV)
+		r := Value(Scalar{mk(SStr, "bytes2str", sv.Arr, sv.Off, sv.Len), to})
 		if fsl := from.Underlying().(*types.Slice); fsl.Elem().Underlying().(*types.Basic).Kind() == types.Byte {
 			st.assume(eq(mk(SInt, "strlen", r.(Scalar).T), v.(SliceV).Len))
 		}
